@@ -59,7 +59,7 @@ type run struct {
 	doneTask map[int]string     // op name -> final payload "code/tok" (C03 same-final, C01 no restart)
 	hist     *hx.Result
 	prevSt   *scheduler.VerifState // state before the current segment (for per-decision checks)
-	noModel  bool // monitor-only mode: used to search for a failing input after a mismatch
+	noModel  bool                  // monitor-only mode: used to search for a failing input after a mismatch
 }
 
 type failure struct {
